@@ -46,6 +46,8 @@ Eval vm_compute in (res TReq ++ res TResp).
     return {int(m.group(1)): m.group(3) == 'true' for m in re.finditer(r'\(\s*(\d+),\s*(\d+),\s*(true|false)\)', out)}
 
 NSHARD = 12
+# the witness of the former class KV6 (repaired by ecf5f15): a Linux 3.11 SYN over IPv6, kept as a regression case
+FORMER_KV6 = 'T q 96 6 600000000028064020010db800000000000000000000000120010db80000000000000000000000029c4001bb0102030400000000a0020014abcd0000020400010402080a00112233000000000103030a'
 
 def coq_http_eval(name, lines, limit, with_live=True):
     """(line -> (leaves, passes)) for the given lines, one coqc process"""
@@ -165,14 +167,13 @@ def main():
     l1 = coq_tcp_live1(cand1)
     print('distance-1 certificates:', l1)
     groups = collections.OrderedDict((k, []) for k in ['live_tcp', 'live1_tcp', 'dead_bad_ttl', 'dead_value_window', 'dead_eol_pad', 'undecided_tcp'])
-    wit = collections.OrderedDict((k, []) for k in ['bad_ttl', 'value_window', 'eol_pad', 'http_exact', 'http_expsw', 'http_value', 'kv6', 'ex_live', 'ex_http'])
+    wit = collections.OrderedDict((k, []) for k in ['bad_ttl', 'value_window', 'eol_pad', 'http_exact', 'http_expsw', 'http_value', 'former_kv6', 'ex_live', 'ex_http'])
     for line in sorted(cls):
         c, tb = cls[line]; b = best.get(('T', tb, line))
         unknown = b is not None and b[0] == 0
         if c == 'CLive':
             if unknown: raise SystemExit('live signature %d has an unexcused witness: %s' % (line, b[3]))
             groups['live_tcp'].append(line)
-            if not wit['kv6'] and b is not None and b[3].split()[3] == '6': wit['kv6'].append((line, b[3]))
             if not wit['ex_live'] and ('T', tb, line) in good: wit['ex_live'].append((line, good[('T', tb, line)]))
         elif c == 'CBadTtl' and unknown: groups['dead_bad_ttl'].append(line); wit['bad_ttl'].append((line, b[3]))
         elif c in ('CValueWindow', 'COptZero', 'CModWindow', 'CMtuWindow', 'CMssWide') and unknown: groups['dead_value_window'].append(line); wit['value_window'].append((line, b[3]))
@@ -240,6 +241,7 @@ Definition dead_http_lines : list N := dead_http_exact_lines ++ dead_http_expsw_
 (* sizes of (live, dead exact, dead Expsw, dead ValueEquality, undecided); 99 in all *)
 Definition http_partition_sizes : nat * nat * nat * nat * nat := (%s)%%nat.
 ''' % tuple([fmt(g) for g in groups.values()] + [', '.join(str(len(g)) for g in groups.values())] + [shards_txt] + [fmt(g) for k, g in hgroups.items() if k != 'live_http'] + [', '.join(str(len(g)) for g in hgroups.values())]))
+    wit['former_kv6'].append((96, FORMER_KV6))
     with open(os.path.join(V, 'coq', 'Spec', 'ReachWitness.v'), 'w') as f:
         f.write('''(* C13: one witness per dead signature, as case lines of Extract/EC13.v (found by harness/c13/tools/mk_lists.py with
    the harness generators; Proofs/ReachBundled.v CHECKS each: it conforms to the signature on its line and the
